@@ -1,6 +1,6 @@
 #!/bin/bash
 # tools/confirm_seed_runsh.sh <ID> <n> : like confirm_seed.sh for seeds whose demonstration is a run.sh + demo crate
-id=$1; n=$2; wt=/tmp/wt/$id; out=$wt/_out/$n
+id=$1; n=$2; wt=${WTBASE:-/tmp/wt}/$id; out=$wt/_out/$n
 export CARGO_NET_OFFLINE=true CARGO_TARGET_DIR=$wt/target
 cd $wt || exit 2
 git checkout -q -- . ; git checkout -q --detach main 2>/dev/null
